@@ -161,7 +161,7 @@ def _lookup_semantics(ctx, decl_fields: List[str]) -> Set[str]:
         t = prog.ann_to_type(fc.module, fields[field][0], fc)
         return prog.classes.get(t[1][1]) if t[0] == 'list' and t[1][0] == 'cls' else None
     try:
-        fqns = [seq for n in (1, 2, 3) for seq in itertools.product('ab', repeat=n)]
+        fqns = [seq for n in (1, 2, 3) for seq in itertools.product(('a', 'ab'), repeat=n)]
         contents: Dict[str, list] = {f: [] for f in fields}
         decls = []          # (Obj, fqn tuple)
         cyc = itertools.cycle(sorted(decl_fields))
@@ -184,8 +184,8 @@ def _lookup_semantics(ctx, decl_fields: List[str]) -> Set[str]:
                 fct.fields[k] = v               # ... the containers filled with the universe
     except (Raised, Undecided):
         return decided
-    names = [seq for n in (1, 2) for seq in itertools.product('ab', repeat=n)]
-    scopes = [None] + [seq for n in (0, 1, 2) for seq in itertools.product('ab', repeat=n)]
+    names = [seq for n in (1, 2) for seq in itertools.product(('a', 'ab'), repeat=n)]
+    scopes = [None] + [seq for n in (0, 1, 2) for seq in itertools.product(('a', 'ab'), repeat=n)]
 
     def judge(fname: str, calls, expect) -> None:
         fn = prog.func('ast_view', fname)
@@ -683,8 +683,70 @@ def _valid_ids_rule(ctx, mut: Mutations) -> Optional[Set[str]]:
     return charset
 
 
+def _notation_by_interpretation(ctx) -> bool:
+    """Writers and reader interpreted (dznverif.scenario, E7): for identifier lists of one to three identifiers,
+    str(NamespaceIds(ids)), str(ScopeName(..)) and str(Fqn(..)) (without root prefix) are read back by namespaceids_t into
+    the same identifiers; a list, a NamespaceIds, '' and a single identifier are read as themselves.  The conversions only
+    join and split at the separators, the identifiers stand for any.  False when not interpretable."""
+    from ..scenario import Interp, Obj, Raised, Undecided
+    run, prog = ctx.run, ctx.prog
+    try:
+        nt = prog.func('scoping', 'namespaceids_t')
+        nids, sn, fq = prog.cls('scoping', 'NamespaceIds'), prog.cls('ast', 'ScopeName'), prog.cls('cpp_gen', 'Fqn')
+    except Exception:       # pylint: disable=broad-except
+        return False
+    bad: List[str] = []
+    n = 0
+
+    def items_of(v):
+        return v.fields.get('items') if isinstance(v, Obj) and v.cls is nids else None
+    try:
+        for ids in (['a'], ['ab', 'a'], ['a', 'b', 'c'], ['_x1', 'Y']):
+            it = Interp(prog)
+            base = it.construct(nids, [list(ids)], {})
+            for label, make in (('NamespaceIds', lambda: base), ('ScopeName', lambda: it.construct(sn, [base], {})),
+                                ('Fqn', lambda: it.construct(fq, [base], {}))):
+                n += 1
+                try:
+                    text = it.text(make())
+                    back = it.call_function(nt, [text], {})
+                except Raised as exc:
+                    bad.append(f'{label} of {ids}: raises {exc.name.split(".")[-1]}')
+                    continue
+                if items_of(back) != ids:
+                    bad.append(f'str({label}({".".join(ids)})) = {text!r} is read back by namespaceids_t as {items_of(back)!r}')
+            for label, arg, want in (('a list of identifiers', list(ids), ids), ('a NamespaceIds', base, ids)):
+                n += 1
+                try:
+                    back = it.call_function(nt, [arg], {})
+                except Raised as exc:
+                    bad.append(f'{label}: raises {exc.name.split(".")[-1]}')
+                    continue
+                if items_of(back) != want:
+                    bad.append(f'{label} {ids} is read as {items_of(back)!r}')
+        for text, want in (('', []), ('solo', ['solo'])):
+            n += 1
+            try:
+                back = Interp(prog).call_function(nt, [text], {})
+                if items_of(back) != want:
+                    bad.append(f'{text!r} is read as {items_of(back)!r}')
+            except Raised as exc:
+                bad.append(f'{text!r}: raises {exc.name.split(".")[-1]}')
+    except Undecided as exc:
+        run.remark(f'C14: the notation conversions could not be interpreted ({exc}); the separator tables decide')
+        return False
+    for k in range(4):
+        run.add('C14.notation', nt.module.name, nt.qualname, f'round trip {k + 1}: writers -> namespaceids_t ({n} conversions)', not bad,
+                'what NamespaceIds, ScopeName and Fqn write (`.` / `::` between the identifiers) is read back by namespaceids_t into the '
+                'same identifiers; lists, NamespaceIds, the empty string and a single identifier are taken as they are' if not bad
+                else '; '.join(bad[:3]))
+    return True
+
+
 def _notation_rule(ctx, charset: Optional[Set[str]]):
     run, prog = ctx.run, ctx.prog
+    if _notation_by_interpretation(ctx):
+        return
     nt = prog.func('scoping', 'namespaceids_t')
     reader: List[str] = []
     for n in iter_own_nodes(nt.node):
